@@ -439,6 +439,11 @@ func c09(r *Report, s *Sem) {
 	// ---- R6 (compression half of the skip decision)
 	ok6, why6 := skipDecision(s, na, "Compression", 2)
 	r.Check(R6, "func "+fnName(na.serverEst)+" / skipping negotiation compares current compression with the single offered option", p.instrPos(na.authCall), ok6, why6)
+
+	R7 := r.Rule("R7", "what is negotiable is what was configured: the lists handed to the server's EstablishSession are the configuration's fields, whose only writers install the constructor's constant defaults or replace the list wholesale with the caller's (never derived from the previous content, never extended by a constant)", 6)
+	checkConfiguredLists(r, s, R7, "SessionCompression", "SessionEncryption")
+	R8 := r.Rule("R8", "a transport that merely reports its encryption (websocket: TLS belongs to the HTTP layer underneath) records 'tls' only on an edge proving TLS is in use — the listener's TLS-configuration test or the dialled URL's wss scheme — and the listener serves plain HTTP only where that test fails", 4)
+	checkReportedEncryption(r, s, R8)
 }
 
 func paramIndex(pr *ssa.Parameter) int {
@@ -1278,6 +1283,10 @@ func c10(r *Report, s *Sem) {
 	checkIntersectExact(r, s, R2)
 	R3 := r.Rule("R3", "when negotiation runs, its result is from the offer: the confirmation (and the upgrade) sit on the ok edges of lookups of the peer's selection in sets built from the offered lists — an omitted or merely supported encryption is refused", 3)
 	checkNegotiationGate(r, s, R3)
+	R4 := r.Rule("R4", "a configured encryption list replaces the default: the list handed to EstablishSession is the configuration's field, whose only writers install the constructor's defaults or the caller's list wholesale — with accumulation EncryptionOptions(TLS) would keep 'none' negotiable", 3)
+	checkConfiguredLists(r, s, R4, "SessionEncryption")
+	R5 := r.Rule("R5", "a websocket listener configured with TLS never serves plain HTTP, and its transports report 'tls' only on the TLS-configuration edge (the skip decision of R1 trusts Transport.Encryption())", 4)
+	checkReportedEncryption(r, s, R5)
 }
 
 // checkIntersectExact: the helper computing "configured ∩ supported" returns exactly the elements of its first operand
